@@ -992,7 +992,7 @@ class NestedCommandsIrcProxy(ReplyIrcProxy):
                         return m
                     # The '(XX more messages)' may have not the same
                     # length in the current locale
-                    allowedLength -= len(_('(XX more messages)')) + 1 # bold
+                    allowedLength -= len(_('(XX more messages)')) + 3 # space, bold
                     chunks = ircutils.wrap(s, allowedLength)
 
                     # Last messages to display at the beginning of the list
